@@ -101,12 +101,13 @@ type SpecDB struct {
 	Globals   map[string]string
 	FuncTypes map[string]bool
 	MethodDefs map[string]*SpecFun
+	FuncTypeLaws map[string]*Expr
 	Files     []string
 	Markers   []string // trusted/assume markers found
 }
 
 func NewSpecDB() *SpecDB {
-	return &SpecDB{Contracts: map[string]*Contract{}, Externs: map[string]*Contract{}, Funs: map[string]*SpecFun{}, UFuns: map[string]*UFun{}, Consts: map[string]string{}, Methods: map[string]bool{}, Globals: map[string]string{}, FuncTypes: map[string]bool{}, MethodDefs: map[string]*SpecFun{}}
+	return &SpecDB{Contracts: map[string]*Contract{}, Externs: map[string]*Contract{}, Funs: map[string]*SpecFun{}, UFuns: map[string]*UFun{}, Consts: map[string]string{}, Methods: map[string]bool{}, Globals: map[string]string{}, FuncTypes: map[string]bool{}, MethodDefs: map[string]*SpecFun{}, FuncTypeLaws: map[string]*Expr{}}
 }
 
 type specLine struct {
@@ -189,6 +190,14 @@ func (db *SpecDB) LoadSpecFile(path string) error {
 			if len(f) >= 1 {
 				db.FuncTypes[f[0]] = true
 				db.Markers = append(db.Markers, "pure-functype "+f[0])
+				// optional law:  functype T pure law <expr over result>
+				if i := strings.Index(rest, " law "); i >= 0 {
+					e, err := ParseExpr(rest[i+5:])
+					if err != nil {
+						return fail(err)
+					}
+					db.FuncTypeLaws[f[0]] = e
+				}
 			}
 			cur = nil
 		case "method":
